@@ -185,11 +185,11 @@ type c16Site struct {
 	Code string `json:"code"` // literal, or "SMTPCode(t,p)"
 	Ench string `json:"ench"` // literal "a.b.c", or "SMTPEnchCode(a.b.c)", or "" if absent
 	// resolved
-	CodeLit    int `json:"code_lit,omitempty"`
-	TCode      int `json:"tcode,omitempty"`
-	PCode      int `json:"pcode,omitempty"`
-	EnchClass  int `json:"ench_class,omitempty"`
-	EnchHelper bool `json:"ench_helper,omitempty"`
+	CodeLit    int    `json:"code_lit,omitempty"`
+	TCode      int    `json:"tcode,omitempty"`
+	PCode      int    `json:"pcode,omitempty"`
+	EnchClass  int    `json:"ench_class,omitempty"`
+	EnchHelper bool   `json:"ench_helper,omitempty"`
 	CodeArg    string `json:"code_arg,omitempty"` // the error expression SMTPCode classifies
 	EnchArg    string `json:"ench_arg,omitempty"` // the error expression SMTPEnchCode classifies
 	Unresolved string `json:"unresolved,omitempty"`
